@@ -53,7 +53,7 @@ def shards(tier, seed):
             for ci in range(0, len(cs), 2):
                 b = "B" if (gi + ci // 2) % 3 == 0 else "J"
                 out.append({"name": f"{'+'.join(kinds)}-{ci}-{b}", "build": b,
-                            "params": {"kinds": kinds, "combos": cs[ci:ci + 2], "cases": 80,
+                            "params": {"kinds": kinds, "combos": cs[ci:ci + 2], "cases": 240,
                                        "G": 5}})
     return out
 
